@@ -2,6 +2,7 @@ package main
 
 import (
 	"fmt"
+	"regexp/syntax"
 	"sort"
 	"strings"
 
@@ -215,4 +216,254 @@ func normaliseUnion(s IntervalSet) IntervalSet {
 		}
 	}
 	return out
+}
+
+// ---------------------------------------------------------------------------------------
+// AD3: language inclusion between constant regular expressions, decided on their automata
+// (regexp/syntax programs) over the exact 4-class alphabet {digit, '.', ':', other}.
+// No input text is run through the library.
+// ---------------------------------------------------------------------------------------
+
+type nfa struct {
+	prog *syntax.Prog
+}
+
+var classReps = []rune{'5', '.', ':', 'x'}
+
+func compileFull(pattern string) (*nfa, error) {
+	re, err := syntax.Parse("(?s:.*)(?:"+pattern+")(?s:.*)", syntax.Perl)
+	if err != nil {
+		return nil, err
+	}
+	prog, err := syntax.Compile(re.Simplify())
+	if err != nil {
+		return nil, err
+	}
+	return &nfa{prog}, nil
+}
+
+func compileExact(pattern string) (*nfa, error) {
+	re, err := syntax.Parse("(?:"+pattern+")", syntax.Perl)
+	if err != nil {
+		return nil, err
+	}
+	prog, err := syntax.Compile(re.Simplify())
+	if err != nil {
+		return nil, err
+	}
+	return &nfa{prog}, nil
+}
+
+// uniform: every rune instruction treats all members of each alphabet class alike.
+func (n *nfa) uniform() bool {
+	digits := []rune("0123456789")
+	others := []rune{'a', 'Z', ' ', '/', ';', '-', '\n', '_', 0x100, '[', ',', '%'}
+	for i := range n.prog.Inst {
+		in := &n.prog.Inst[i]
+		switch in.Op {
+		case syntax.InstRune, syntax.InstRune1, syntax.InstRuneAny, syntax.InstRuneAnyNotNL:
+			d0 := in.MatchRune(digits[0])
+			for _, d := range digits {
+				if in.MatchRune(d) != d0 {
+					return false
+				}
+			}
+			o0 := in.MatchRune(others[0])
+			for _, o := range others {
+				if in.MatchRune(o) != o0 {
+					if in.Op == syntax.InstRuneAnyNotNL && o == '\n' {
+						continue
+					}
+					return false
+				}
+			}
+		case syntax.InstEmptyWidth:
+			if syntax.EmptyOp(in.Arg)&(syntax.EmptyWordBoundary|syntax.EmptyNoWordBoundary) != 0 {
+				return false
+			}
+		}
+	}
+	return true
+}
+
+func (n *nfa) closure(pcs []uint32, atStart, atEnd bool) []uint32 {
+	seen := map[uint32]bool{}
+	var out []uint32
+	var visit func(pc uint32)
+	visit = func(pc uint32) {
+		if seen[pc] {
+			return
+		}
+		seen[pc] = true
+		in := &n.prog.Inst[pc]
+		switch in.Op {
+		case syntax.InstAlt, syntax.InstAltMatch:
+			visit(in.Out)
+			visit(in.Arg)
+		case syntax.InstCapture, syntax.InstNop:
+			visit(in.Out)
+		case syntax.InstEmptyWidth:
+			op := syntax.EmptyOp(in.Arg)
+			ok := true
+			if op&(syntax.EmptyBeginText|syntax.EmptyBeginLine) != 0 && !atStart {
+				ok = false
+			}
+			if op&(syntax.EmptyEndText|syntax.EmptyEndLine) != 0 && !atEnd {
+				ok = false
+			}
+			if ok {
+				visit(in.Out)
+			}
+		default:
+			out = append(out, pc)
+		}
+	}
+	for _, pc := range pcs {
+		visit(pc)
+	}
+	sort.Slice(out, func(i, j int) bool { return out[i] < out[j] })
+	return out
+}
+
+func (n *nfa) step(state []uint32, r rune) []uint32 {
+	var next []uint32
+	for _, pc := range state {
+		in := &n.prog.Inst[pc]
+		switch in.Op {
+		case syntax.InstRune, syntax.InstRune1, syntax.InstRuneAny, syntax.InstRuneAnyNotNL:
+			if in.MatchRune(r) {
+				next = append(next, in.Out)
+			}
+		}
+	}
+	return next
+}
+
+func (n *nfa) accepts(raw []uint32, atStart bool) bool {
+	for _, pc := range n.closure(raw, atStart, true) {
+		if n.prog.Inst[pc].Op == syntax.InstMatch {
+			return true
+		}
+	}
+	return false
+}
+
+func key(s []uint32) string { return fmt.Sprint(s) }
+
+// includedIn decides L(a) ⊆ L(b); wantNot inverts b (L(a) ∩ L(b) = ∅). Returns a witness class string on failure.
+func includedIn(a, b *nfa, disjoint bool) (bool, string) {
+	type st struct {
+		a, b  []uint32 // raw (pre-closure) pcs
+		start bool
+		w     string
+	}
+	init := st{[]uint32{uint32(a.prog.Start)}, []uint32{uint32(b.prog.Start)}, true, ""}
+	queue := []st{init}
+	seen := map[string]bool{}
+	for len(queue) > 0 {
+		cur := queue[0]
+		queue = queue[1:]
+		k := key(cur.a) + "|" + key(cur.b) + fmt.Sprint(cur.start)
+		if seen[k] {
+			continue
+		}
+		seen[k] = true
+		if len(seen) > 200000 {
+			return false, "state space too large"
+		}
+		accA, accB := a.accepts(cur.a, cur.start), b.accepts(cur.b, cur.start)
+		if accA && (accB == disjoint) {
+			return false, cur.w
+		}
+		ca := a.closure(cur.a, cur.start, false)
+		if len(ca) == 0 {
+			continue
+		}
+		cb := b.closure(cur.b, cur.start, false)
+		for _, r := range classReps {
+			na := a.step(ca, r)
+			if len(na) == 0 {
+				continue
+			}
+			nb := b.step(cb, r)
+			queue = append(queue, st{na, nb, false, cur.w + string(r)})
+		}
+	}
+	return true, ""
+}
+
+func RuleAddrPatterns(r *Report, p *Program) {
+	r.Rule("AD3", "pre-filter patterns (constants): every a.b.c.d:port text reaches the with-port branch, every a.b.c.d text reaches the port-less branch and not the with-port one, and every text a pattern lets through contains a dotted quad (language inclusion on the patterns' automata)", 4)
+	var spec RolesSpec
+	if err := loadJSON("/verif/spec/roles.json", &spec); err != nil {
+		r.Fatal("AD3", "roles.json", err.Error())
+		return
+	}
+	canonPort, _ := compileExact(`[0-9]{1,3}\.[0-9]{1,3}\.[0-9]{1,3}\.[0-9]{1,3}:[0-9]{1,5}`)
+	canonQuad, _ := compileExact(`[0-9]{1,3}\.[0-9]{1,3}\.[0-9]{1,3}\.[0-9]{1,3}`)
+	hasQuad, _ := compileFull(`[0-9]+\.[0-9]+\.[0-9]+\.[0-9]+`)
+	names := []string{}
+	for n := range spec.Roles {
+		names = append(names, n)
+	}
+	sort.Strings(names)
+	for _, role := range names {
+		rs := spec.Roles[role]
+		fn := p.Func("types", rs.Parser)
+		if fn == nil {
+			r.Fatal("AD3", role, "parser not found")
+			continue
+		}
+		// patterns in order of use
+		var pats []string
+		for _, b := range fn.DomPreorder() {
+			for _, in := range b.Instrs {
+				if c, ok := in.(*ssa.Call); ok {
+					if f := c.Call.StaticCallee(); f != nil && (calleeName(f) == "regexp.MatchString" || calleeName(f) == "regexp.MustCompile") {
+						if s, ok := constStr(c.Call.Args[0]); ok {
+							pats = append(pats, s)
+						}
+					}
+				}
+			}
+		}
+		bad := ""
+		want := 2
+		if rs.Default == nil {
+			want = 1
+		}
+		if len(pats) != want {
+			bad = fmt.Sprintf("%d constant pre-filter patterns, expected %d", len(pats), want)
+		} else {
+			var ns []*nfa
+			for _, s := range pats {
+				n, err := compileFull(s)
+				if err != nil || !n.uniform() {
+					bad = "pattern " + s + " cannot be decided over the {digit . : other} alphabet"
+					break
+				}
+				ns = append(ns, n)
+			}
+			if bad == "" {
+				if ok, w := includedIn(canonPort, ns[0], false); !ok {
+					bad = fmt.Sprintf("a valid address:port text of class shape %q is not matched by the with-port pattern %s", w, pats[0])
+				}
+				if ok, w := includedIn(ns[0], hasQuad, false); !ok && bad == "" {
+					bad = fmt.Sprintf("the with-port pattern lets through text without a dotted quad (class shape %q)", w)
+				}
+				if want == 2 && bad == "" {
+					if ok, w := includedIn(canonQuad, ns[1], false); !ok {
+						bad = fmt.Sprintf("a valid dotted quad of class shape %q is not matched by the port-less pattern %s", w, pats[1])
+					}
+					if ok, w := includedIn(canonQuad, ns[0], true); !ok && bad == "" {
+						bad = fmt.Sprintf("a port-less dotted quad (class shape %q) is caught by the with-port pattern", w)
+					}
+					if ok, w := includedIn(ns[1], hasQuad, false); !ok && bad == "" {
+						bad = fmt.Sprintf("the port-less pattern lets through text without a dotted quad (class shape %q)", w)
+					}
+				}
+			}
+		}
+		r.Check(bad == "", "AD3", role, p.Pos(fn.Pos()), fmt.Sprintf("%d patterns, inclusions hold", len(pats)), bad)
+	}
 }
